@@ -80,6 +80,24 @@ def cryptoLine (st : CryptoRun) (lineNo : Nat) (line : String) : Except String (
     let outs := if ok then [] else
       [s!"PROPFAIL C03 reopen_eq line={lineNo} big database step={get "step"} size={get "size"} reopen={(get "reopen").take 200} match={get "match"}"]
     .ok ({ st with cases := st.cases + 1, fails := st.fails + outs.length, cover := bump st.cover s!"bigdb:{get "step"}" }, outs)
+  | "aged" :: rest =>
+    -- one database over months and years of virtual time, the key service unreachable once it
+    -- is open: no call touches the key, every call answers as on the first day, and a copy of
+    -- the file opens with the same contents
+    let fs := fields rest
+    let get := fun k => (lookup fs k).getD ""
+    let tag := s!"hist={get "hist"} line={lineNo} step={get "step"} day={get "day"} op={get "op"}"
+    let o1 := if get "kekdelta" == "0" then [] else
+      [s!"PROPFAIL C05 kek_only_at_open {tag} the call used the key-encryption key {get "kekdelta"} time(s)"]
+    let o2 := if get "res" == get "want" then [] else
+      [s!"PROPFAIL C05 kek_only_at_open {tag} with the key service unreachable the call answered {get "res"} want {get "want"}",
+       s!"PROPFAIL C02 over_time {tag} res={get "res"} want={get "want"}"]
+    let o3 := if get "reopen" == "ok" && get "same" == "1" then [] else
+      [s!"PROPFAIL C03 reopen_eq {tag} reopen={(get "reopen").take 200} same={get "same"}",
+       s!"PROPFAIL C05 tamper {tag} an unaltered file does not open with its contents: reopen={(get "reopen").take 200} same={get "same"}"]
+    let outs := o1 ++ o2 ++ o3
+    .ok ({ st with cases := st.cases + 1, fails := st.fails + outs.length,
+                   cover := bump st.cover s!"aged:{get "op"}:{if (get "day").toNat?.getD 0 > 30 then "old" else "young"}" }, outs)
   | "open" :: rest =>
     let fs := fields rest
     let get := fun k => (lookup fs k).getD ""
